@@ -2,6 +2,8 @@ mod c05;
 mod c05std;
 mod c30;
 mod common;
+mod lsmini;
+mod sched;
 
 fn main() {
     let args: Vec<String> = std::env::args().skip(1).collect();
